@@ -2,6 +2,11 @@
 # Prints the prompt handed to a mutation sub-agent for one property (development tool).
 import json,sys
 pid=sys.argv[1]; wt=sys.argv[2]
+style=sys.argv[3] if len(sys.argv)>3 else ''
+STYLE={'':'',
+ 'far':"\nADDITIONAL CONSTRAINT FOR THIS ROUND: make both changes OUTSIDE the functions one would first think of - in a helper, utility, accessor, constructor, option/default, data table or sibling implementation that the involved code relies on (possibly in another file or package of the same module) - so that the function that visibly implements the property is left untouched and still looks right.\n",
+ 'add':"\nADDITIONAL CONSTRAINT FOR THIS ROUND: both changes must ADD or MOVE code - the kind of well-meant optimisation or feature a developer adds (a cache or memo, a fast path / early exit, reuse of a buffer or object across calls, pooling, batching, an extra option, a retry, moving work out of a lock or loop) - rather than delete, negate or off-by-one an existing line.\n",
+}[style]
 moddir={'C05':'collector/processor/concurrentbatchprocessor','C06':'collector/processor/concurrentbatchprocessor','C09':'collector/processor/concurrentbatchprocessor','C10':'collector/processor/concurrentbatchprocessor','C11':'collector/processor/concurrentbatchprocessor','C18':'collector/processor/concurrentbatchprocessor','C17':'collector/processor/obfuscationprocessor'}.get(pid,'. (the root module, packages under pkg/...)')
 p=[json.loads(l) for l in open('/verif/properties.jsonl') if json.loads(l)['id']==pid][0]
 print(f"""You are helping to test a verification tool by writing realistic bugs for it to find. Work ONLY inside the git worktree {wt} (a checkout of the Go repository open-telemetry/otel-arrow at a pinned commit) and the output directory {wt}-out. Do NOT read, list or touch /verif or /repo (not even to look): what you write must be independent of them. There is no network. Never use `git stash` (the stash is shared by all worktrees of the repository and other testers work next to you): keep variants as patch files instead.
@@ -20,7 +25,7 @@ YOUR TASK: produce TWO independent alternative source changes (call them m1 and 
  (2) ALL existing tests of the affected module still pass: `go test -vet=off -count=1 ./...` in that module directory (for the root module this takes 5-15 minutes because other jobs share the machine: while iterating run only the packages you touched, run the full module suite ONCE per change at the end with `-p 4` and a 40-minute timeout),
  (3) breaks the property above, and
  (4) needs something specific to manifest - a particular interleaving, a crash or fault at a particular point, a multi-step sequence of operations, an unusual input, or two cooperating sites that each look fine alone - NOT something ordinary use would expose at once.
-Make them realistic: the kind of mistake a developer plausibly introduces while refactoring, optimising or adding a feature (an off-by-one in a guard, a dropped release / reset / copy of one field, a check moved after the action, a wrong variable of the same type, a missing case, state shared that should be per-instance, an error swallowed, ...). Do not merely re-expose a bug that already exists in the pristine code: your demonstration must PASS on the pristine worktree.
+{STYLE}Make them realistic: the kind of mistake a developer plausibly introduces while refactoring, optimising or adding a feature (an off-by-one in a guard, a dropped release / reset / copy of one field, a check moved after the action, a wrong variable of the same type, a missing case, state shared that should be per-instance, an error swallowed, ...). Do not merely re-expose a bug that already exists in the pristine code: your demonstration must PASS on the pristine worktree.
 
 For each change also write a demonstration: a new Go test file (not part of the patch; put it in the package directory it needs) that FAILS with the change applied and PASSES on the pristine worktree. Deterministic if at all possible (for schedule-dependent bugs, force the interleaving with channels/blocking consumers rather than sleeping and hoping).
 
